@@ -283,6 +283,13 @@ def run_scenario(scn, ch):
     # re-registration of a requested resource id through the public system.register_resource, an external event like
     # the endings: (resource, same preemption flag | toggled flag), offered at every choice point that offers endings
     RR = [(r, t) for r in sorted(set(req)) for t in (False, True)]
+    rr_first = scn.get("rr") == "first"  # offered only as the FIRST non-default answer of a run (see scenarios())
+
+    def n_rr():
+        """how many re-registration answers this choice point offers"""
+        if rr_first and any(c for _n, _l, c in ch.trace):
+            return 0
+        return len(RR)
 
     def reregister(i, where):
         rid, toggle = RR[i]
@@ -343,7 +350,7 @@ def run_scenario(scn, ch):
         k = env.lock_steps[kind]
         env.lock_steps[kind] = k + 1
         ne = 1 + 2 * len(EXT)
-        c = ch.pick(ne + 2 * len(RR), f"{kind}:{k}:{rid}") if mode != "manual" else 0
+        c = ch.pick(ne + 2 * n_rr(), f"{kind}:{k}:{rid}") if mode != "manual" else 0
         rr = c - ne if c >= ne else None  # re-registration right before (even) / right after (odd) the lock step
         if rr is not None:
             c = 0
@@ -374,7 +381,7 @@ def run_scenario(scn, ch):
 
     for lock in ctl.resources.values():
         lock.probe = probe
-    env.reregister, env.n_rereg = reregister, len(RR)
+    env.reregister, env.n_rereg = reregister, n_rr
 
     def fix_created(ctx):
         if ctx.operation_id == OP and not getattr(ctx, "_c14_fixed", False):
@@ -387,7 +394,7 @@ def run_scenario(scn, ch):
                 return orig(ctx)
             fix_created(ctx)
             nb = 3 + len(EXT)
-            c = ch.pick(nb + len(CP_MORE) + len(RR), f"cp:{phase}")
+            c = ch.pick(nb + len(CP_MORE) + n_rr(), f"cp:{phase}")
             if c >= nb + len(CP_MORE):
                 reregister(c - nb - len(CP_MORE), f"cp:{phase}")
                 c = 0
@@ -429,7 +436,7 @@ def run_scenario(scn, ch):
                 f"'{OP}' (owners { {r: ctl.resources[r].owner for r in missing} }, endings so far {env.ext})")
         owned = sorted(r for r in set(req) if ctl.resources[r].owner == OP)
         n = 2 + len(EXT) + (1 if owned else 0)
-        c = ch.pick(n + len(WORK_MORE) + len(RR), "work")
+        c = ch.pick(n + len(WORK_MORE) + n_rr(), "work")
         if c >= n + len(WORK_MORE):
             reregister(c - n - len(WORK_MORE), "work")
             c = 0
@@ -454,7 +461,7 @@ def run_scenario(scn, ch):
         if not env.work_returned:
             bad("validate-before-work-completed", "validate_fn entered before work_fn returned")
         nb = 3 + len(EXT)
-        c = ch.pick(nb + len(VALIDATE_MORE) + len(RR), "validate")
+        c = ch.pick(nb + len(VALIDATE_MORE) + n_rr(), "validate")
         if c >= nb + len(VALIDATE_MORE):
             reregister(c - nb - len(VALIDATE_MORE), "validate")
             c = 0
@@ -581,7 +588,7 @@ def _manual_driver(env, system, req, prio, work_fn, vfn, external):
 
     def between(where):
         """external ending between two API calls; True = the operation was ended, caller stops"""
-        c = ch.pick(1 + len(EXT) + env.n_rereg, f"between:{where}")
+        c = ch.pick(1 + len(EXT) + env.n_rereg(), f"between:{where}")
         if c > len(EXT):
             env.reregister(c - 1 - len(EXT), where)  # not an ending: the caller goes on
         elif c:
@@ -645,7 +652,7 @@ def _manual_driver(env, system, req, prio, work_fn, vfn, external):
     if not advance(ctx, "G2"):
         ctl.abort_operation(ctx, reason="G2 checkpoint")
         return False
-    c = ch.pick(2 + len(EXT) + env.n_rereg, "finish")
+    c = ch.pick(2 + len(EXT) + env.n_rereg(), "finish")
     if c >= 2 + len(EXT):
         env.reregister(c - 2 - len(EXT), "before-complete")
         c = 0
@@ -690,12 +697,16 @@ VARIANTS = {
 def scenarios(tier):
     """quick: one request list per renaming class x all priorities x all system variants.  thorough: the same plus
     every one of the 40 request lists x priorities {0,5} x the first (plain) variant - the renaming symmetry is not
-    relied upon there."""
+    relied upon there.  With two deviations per run (thorough) a re-registration is offered only as the first
+    non-default answer of a run: re-registration at any point, then any ending / fault at any later point (every exit
+    path after a re-registration), but not fault-then-re-registration and not two re-registrations (measured: 100.7M
+    instead of 50M executions otherwise)."""
     out = _scenarios(False, PRIOS, VARIANTS)
     if tier == "thorough":
         seen = {repr(sorted(s.items())) for s in out}
         out += [s for s in _scenarios(True, PRIOS[:2], {m: v[:1] for m, v in VARIANTS.items()})
                 if repr(sorted(s.items())) not in seen]
+        out = [dict(s, rr="first") for s in out]
     return out
 
 
@@ -966,7 +977,8 @@ def run(ctx):
         "in such a run the 'work holds all requested resources' clause exempts the re-registered id, the obtained set is "
         "the set of observed lock grants (not the reference prediction), the re-registered resource must end as the "
         "re-registration left it or free, and the follow-up from final states only reachable that way is one level "
-        "shallower; the library's new lock object is not a probe lock, so its lock steps are not choice points",
+        "shallower; the library's new lock object is not a probe lock, so its lock steps are not choice points; with two "
+        "deviations per run (thorough) a re-registration is only offered as the first non-default answer of a run",
     ]
 
 
